@@ -36,7 +36,7 @@ pub static C08: CheckSpec = CheckSpec {
     runs_thorough: 15_000_000,
     cap_quick_s: 60,
     cap_thorough_s: 900,
-    rule: "same histories as C07; at lookup steps and at the end of each run closest_keys / closest_values / closest_values_predicate (3 targets: local id, stored ids, ids at a chosen log2 distance 0..256 with the low bits set, random) are compared with the sorted post-iteration full scan, and nodes_by_distances (distinct distances incl. 0, >256, u64::MAX; cap 1..20) with the stored nodes at those distances; distinct = distinct hash of the operation/result log; the order in which the closest-node lookups and the distance lookups touch the table after each operation is chosen per check (both apply pending nodes whose timeout has run out)",
+    rule: "same histories as C07; at lookup steps and at the end of each run closest_keys / closest_values / closest_values_predicate (3 targets: local id, stored ids, ids at a chosen log2 distance 0..256 with the low bits set, random) are compared with the sorted post-iteration full scan, and nodes_by_distances (distinct distances incl. 0, >256, u64::MAX; cap 1..20) with the stored nodes at those distances; distinct = distinct hash of the operation/result log; the order in which the closest-node lookups and the distance lookups touch the table after each operation is chosen per check (both apply pending nodes whose timeout has run out); a fifth of the closest-iteration targets have a distance built word by word (64-bit) from runs of set and clear bits, single bits and their complements, and buckets around the word boundaries (63-65, 127-129, 191-193) are populated more often than chance",
     components_real: REAL_TABLE,
     components_stub: STUB_CLOCK,
     enumerated: None,
@@ -73,7 +73,7 @@ pub static C09: CheckSpec = CheckSpec {
     runs_thorough: 60_000_000,
     cap_quick_s: 60,
     cap_thorough_s: 900,
-    rule: "one run = one generated event order (poll / success with 0..6 returned peers that are new, duplicate, closer, farther or the target itself / failure / silence past the peer timeout / late success / answers for never-asked or unknown peers) against a real FindNodeQuery or PredicateQuery (direct) or a real QueryPool with 1-3 concurrent queries and a query timeout (pool), parallelism 1..5, k 0..20, followed by a fault-free drain phase with a step bound (liveness); non-trivial = at least one fault-like event fired (failure, late success, silence, answer for a non-outstanding peer); distinct = distinct hash of the event log; service-lookup: a real service with a scripted handler whose FINDNODEs are answered honestly, maliciously or with failures; Scenario 'full-stack': 2-5 complete honest Discv5 nodes (API, service, handler, tables) on the virtual network with drop/duplicate/delay/bit-flip/late-replay/partition/restart faults and API calls (find_node incl. targets adjacent to a peer's id, send_ping, talk_req, find_node_designated_peer); every API future must return within a bound after the faults stop; pool runs also check the query timeout itself: a poll that examined every query and had nothing to do must not leave a query in the pool whose clock (started at the latest at the first poll that certainly examined it) has run for the query timeout; service-lookup: peers may stay silent (reported as failed after 3 s, as the handler would), and after the first lookup a second one runs while requests of the first are still being answered (answers to an ended lookup must not count for the next); requests count as in flight until answered, or until the lookup's peer timeout for silent peers",
+    rule: "one run = one generated event order (poll / success with 0..6 returned peers that are new, duplicate, closer, farther or the target itself / failure / silence past the peer timeout / late success / answers for never-asked or unknown peers) against a real FindNodeQuery or PredicateQuery (direct) or a real QueryPool with 1-3 concurrent queries and a query timeout (pool), parallelism 1..5, k 0..20, followed by a fault-free drain phase with a step bound (liveness); non-trivial = at least one fault-like event fired (failure, late success, silence, answer for a non-outstanding peer); distinct = distinct hash of the event log; service-lookup: a real service with a scripted handler whose FINDNODEs are answered honestly, maliciously or with failures; Scenario 'full-stack': 2-5 complete honest Discv5 nodes (API, service, handler, tables) on the virtual network with drop/duplicate/delay/bit-flip/late-replay/partition/restart faults and API calls (find_node incl. targets adjacent to a peer's id, send_ping, talk_req, find_node_designated_peer); every API future must return within a bound after the faults stop; pool runs also check the query timeout itself: a poll that examined every query and had nothing to do must not leave a query in the pool whose clock (started at the latest at the first poll that certainly examined it) has run for the query timeout; service-lookup: peers may stay silent (reported as failed after 3 s, as the handler would), and after the first lookup a second one runs while requests of the first are still being answered (answers to an ended lookup must not count for the next); requests count as in flight until answered, or until the lookup's peer timeout for silent peers; in the pool scenario one lookup in ten has parallelism 0: it can ask nobody and must still end, by the query timeout",
     components_real: REAL_QUERY,
     components_stub: &["OS monotonic clock (interposed)", "the service and its peers (the harness plays the answers)"],
     enumerated: None,
@@ -111,7 +111,7 @@ pub static C18: CheckSpec = CheckSpec {
     runs_thorough: 40_000_000,
     cap_quick_s: 60,
     cap_thorough_s: 900,
-    rule: "one run = one generated arrival schedule (20..420 steps: datagrams from 1-6 IPs x 1-8 node ids, bursts, lulls of 0..31 s, prune ticks, ban/permit list edits) executed twice against a fresh real Filter (with and without the prune ticks: metamorphic pair), quotas burst in {1,2,4,5,8,10} per {0.1,0.5,1,5} s for total / per-IP / per-node; 'conforming' runs generate only traffic that stays within every quota (initial burst, then paced at >= period/burst per key and in total) and demand that nothing is refused; non-trivial = a prune tick occurred or at least one datagram was refused; distinct = distinct hash of the arrival/decision log; sender addresses are IPv4, IPv4-mapped IPv6 and IPv6",
+    rule: "one run = one generated arrival schedule (20..420 steps: datagrams from 1-6 IPs x 1-8 node ids, bursts, lulls of 0..31 s, prune ticks, ban/permit list edits) executed twice against a fresh real Filter (with and without the prune ticks: metamorphic pair), quotas burst in {1,2,4,5,8,10} per {0.1,0.5,1,5} s for total / per-IP / per-node; 'conforming' runs generate only traffic that stays within every quota (initial burst, then paced at >= period/burst per key and in total) and demand that nothing is refused; non-trivial = a prune tick occurred or at least one datagram was refused; distinct = distinct hash of the arrival/decision log; sender addresses are IPv4, IPv4-mapped IPv6 and IPv6; the arriving datagrams are of message kind, of handshake kind or a mix (per-run knob): both carry a node id and take the same node stage; ban durations include 100 ms and 1 s (shorter than most quota periods) and list edits include lifting a ban: the window bound must hold across the end of a ban; a refusal of a sender whose expired ban entry is still on the list (the sweep is not part of the filter) is attributed to that entry unless the implementation has shown, by letting such a sender pass, that it does not honour expired entries",
     components_real: &["socket::filter::Filter (initial_pass, final_pass, prune_limiter)", "socket::filter::rate_limiter::{RateLimiter, Limiter} (GCRA)", "socket::filter::cache::ReceivedPacketCache", "PERMIT_BAN_LIST global"],
     components_stub: &["OS monotonic clock (interposed)", "UDP receive loop and packet decoding (the filter stages are called directly in the order RecvHandler::handle_inbound calls them; the exemption bypass of handle_inbound is exercised under C13)"],
     enumerated: None,
@@ -188,7 +188,7 @@ pub static C15: CheckSpec = CheckSpec {
     runs_thorough: 900_000,
     cap_quick_s: 75,
     cap_thorough_s: 1200,
-    rule: "session-ttl: a victim with session_timeout in {2,5,30,120} s and 1-3 real peers; 4-17 sequential exchanges in either direction separated by idle gaps of 50 ms, timeout/2, timeout-0.7 s, timeout+1 ms, timeout+0.7 s, 2*timeout; every datagram the victim encrypts and every message it accepts is attributed to one of its sessions (key log) and that session's idle time must not exceed the timeout. session-capacity: capacity 1-5, 2-7 real peers, sequential exchanges in tape-chosen order and direction, then the victim pings every peer most-recently-used first: ranks below the capacity must be answered on the existing session, ranks at or above it must start with a random packet; non-trivial = an idle gap longer than the timeout occurred / more peers than capacity; distinct = distinct event-log hash; capacity-with-expiry: capacity 2-4, session_timeout 20/60 s, the cache is filled, one peer's session is left to expire (the peer may crash; the victim may look the expired session up once more) while the others stay in use, then a new peer arrives: the probe demands that every session used within the timeout is still held; a fifth of the runs use an IPv6-only network; the victim's application sometimes answers a request only around or after the expiry of the session it came in on; a quarter of the ttl runs: the victim retransmits (retries 2-3, request timeout 1 s), its sessions live 0.3 or 0.7 s and peers sometimes answer only after the first retransmission (a byte-identical retransmission is not a use of the session)",
+    rule: "session-ttl: a victim with session_timeout in {2,5,30,120} s and 1-3 real peers; 4-17 sequential exchanges in either direction separated by idle gaps of 50 ms, timeout/2, timeout-0.7 s, timeout+1 ms, timeout+0.7 s, 2*timeout; every datagram the victim encrypts and every message it accepts is attributed to one of its sessions (key log) and that session's idle time must not exceed the timeout. session-capacity: capacity 1-5, 2-7 real peers, sequential exchanges in tape-chosen order and direction, then the victim pings every peer most-recently-used first: ranks below the capacity must be answered on the existing session, ranks at or above it must start with a random packet; non-trivial = an idle gap longer than the timeout occurred / more peers than capacity; distinct = distinct event-log hash; capacity-with-expiry: capacity 2-4, session_timeout 20/60 s, the cache is filled, one peer's session is left to expire (the peer may crash; the victim may look the expired session up once more) while the others stay in use, then a new peer arrives: the probe demands that every session used within the timeout is still held; a fifth of the runs use an IPv6-only network; the victim's application sometimes answers a request only around or after the expiry of the session it came in on; a quarter of the ttl runs: the victim retransmits (retries 2-3, request timeout 1 s), its sessions live 0.3 or 0.7 s and peers sometimes answer only after the first retransmission (a byte-identical retransmission is not a use of the session); replayed old datagrams include handshake datagrams (a handshake that answers no outstanding challenge is no use of any session: neither the idle time nor the recency rank of that peer's session may change), in the capacity scenario between exchanges; one step in five is preceded by an undecryptable packet in the peer's name whose who-are-you query the victim's application answers only after half a session timeout or more (answering a query is no use of a session)",
     components_real: REAL_HANDLER,
     components_stub: STUB_HANDLER,
     enumerated: None,
@@ -221,7 +221,7 @@ pub static C11: CheckSpec = CheckSpec {
     runs_thorough: 1_500_000,
     cap_quick_s: 75,
     cap_thorough_s: 1200,
-    rule: "one run = a real service with 1-10 table peers out of a universe of 10-40 real signed records, one lookup whose target is random, a peer's id, a peer's id with one of the three lowest bits flipped (request lists containing 0) or the local id; each FINDNODE the lookup emits is answered by an honest responder (all records of its neighbourhood at the requested distances, own record iff 0 requested, 1-4 packets, consistent total, sometimes a late extra packet) or a malicious one (off-distance records, the requester's own record, duplicates, totals 0..2^64-1 with up to 20 packets, more packets than announced, a single foreign record) or by RequestFailed; accepted records are observed as Discovered events packet by packet, the ban list is read after every response; non-trivial = the lookup asked at least one peer; distinct = distinct event-log hash; Scenario 'full-stack': 2-5 complete honest Discv5 nodes (API, service, handler, tables) on the virtual network with drop/duplicate/delay/bit-flip/late-replay/partition/restart faults and API calls (find_node incl. targets adjacent to a peer's id, send_ping, talk_req, find_node_designated_peer); the ban list must stay empty (all peers are honest); ban_duration is the default, 10 min or None (banned for good); the node's own max_nodes_response is 4, 16, 20, 32 or 64 (the honest responder model, the same implementation with the same setting, returns at most that many table records)",
+    rule: "one run = a real service with 1-10 table peers out of a universe of 10-40 real signed records, one lookup whose target is random, a peer's id, a peer's id with one of the three lowest bits flipped (request lists containing 0) or the local id; each FINDNODE the lookup emits is answered by an honest responder (all records of its neighbourhood at the requested distances, own record iff 0 requested, 1-4 packets, consistent total, sometimes a late extra packet) or a malicious one (off-distance records, the requester's own record, duplicates, totals 0..2^64-1 with up to 20 packets, more packets than announced, a single foreign record) or by RequestFailed; accepted records are observed as Discovered events packet by packet, the ban list is read after every response; non-trivial = the lookup asked at least one peer; distinct = distinct event-log hash; Scenario 'full-stack': 2-5 complete honest Discv5 nodes (API, service, handler, tables) on the virtual network with drop/duplicate/delay/bit-flip/late-replay/partition/restart faults and API calls (find_node incl. targets adjacent to a peer's id, send_ping, talk_req, find_node_designated_peer); the ban list must stay empty (all peers are honest); ban_duration is the default, 10 min or None (banned for good); the node's own max_nodes_response is 4, 16, 20, 32 or 64 (the honest responder model, the same implementation with the same setting, returns at most that many table records); the unrequested records a malicious responder slips in are dialable, IPv6-only, without UDP port or without any address; in a quarter of the C11 runs some responders are on the application's permit lists (node id or IP): a responder that returns unrequested records is put on the ban list all the same; in the C09/C10 runs the routing table changes while the lookup runs (a node of the universe connects, a table entry is removed; half of these changes are aimed at a node the lookup has learnt of but not asked yet)",
     components_real: REAL_SERVICE,
     components_stub: STUB_SERVICE,
     enumerated: None,
@@ -254,7 +254,7 @@ pub static C14: CheckSpec = CheckSpec {
     runs_thorough: 600_000,
     cap_quick_s: 75,
     cap_thorough_s: 1200,
-    rule: "one run = a real service whose table holds 2-61 real signed records (padded to the 300-byte limit in two of three runs), max_nodes_response in {1,4,16,32,48}; 3-14 requests: FINDNODE with 0-6 distances (0, 256..249, random; duplicates, unsorted), request ids of 0-8 bytes, requesters that are table entries or strangers, PINGs from ports incl. 0; the HandlerIn::Response values are compared with the table read back through the public API and every packet is encrypted (AES-GCM) and encoded with the real codec to measure its wire size; every run is non-trivial; distinct = distinct event-log hash; Scenario 'full-stack' (W-F, see C09): every NODES and PONG a complete node puts on the wire is decrypted with the key log: records only at the distances of the FINDNODE it answers (matched by request id), never the requester's record, only entries of the sender's table (or its own record), total >= 1; PONG reports exactly the requester's address and the sender's current sequence number; record sizes: plain, maximal (300 bytes) or every size in between at byte granularity; PING sources are IPv4, IPv6 and IPv4-mapped IPv6 addresses with ports from the whole range, and the local record is sometimes updated (enr_insert) before a PING so that the PONG must carry the new sequence number; a quarter of the runs use tables of 100-176 nodes",
+    rule: "one run = a real service whose table holds 2-61 real signed records (padded to the 300-byte limit in two of three runs), max_nodes_response in {1,4,16,32,48}; 3-14 requests: FINDNODE with 0-6 distances (0, 256..249, random; duplicates, unsorted), request ids of 0-8 bytes, requesters that are table entries or strangers, PINGs from ports incl. 0; the HandlerIn::Response values are compared with the table read back through the public API and every packet is encrypted (AES-GCM) and encoded with the real codec to measure its wire size; every run is non-trivial; distinct = distinct event-log hash; Scenario 'full-stack' (W-F, see C09): every NODES and PONG a complete node puts on the wire is decrypted with the key log: records only at the distances of the FINDNODE it answers (matched by request id), never the requester's record, only entries of the sender's table (or its own record), total >= 1; PONG reports exactly the requester's address and the sender's current sequence number; record sizes: plain, maximal (300 bytes) or every size in between at byte granularity; PING sources are IPv4, IPv6 and IPv4-mapped IPv6 addresses with ports from the whole range, and the local record is sometimes updated (enr_insert) before a PING so that the PONG must carry the new sequence number; a quarter of the runs use tables of 100-176 nodes; one request in eight names (nearly) every distance 0..=256 in ascending, descending or rotated order, with duplicates and out-of-range values mixed in; a fifth of the nodes advertise no socket in their own record (they serve it for distance 0 all the same)",
     components_real: REAL_SERVICE,
     components_stub: STUB_SERVICE,
     enumerated: None,
@@ -265,15 +265,15 @@ pub static C17: CheckSpec = CheckSpec {
     id: "C17",
     level: "exploration",
     scenarios: &[Scenario { name: "ip-votes", weight: 1, run: worlds::s_serve::run_c17 }],
-    runs_quick: 8_000,
+    runs_quick: 20_000,
     runs_thorough: 400_000,
     cap_quick_s: 75,
     cap_thorough_s: 1200,
-    rule: "one run = a real service in IPv4 mode with enr_peer_update_min 2..6, vote_duration 8/30/120 s, ping interval 1 s, 2-12 voters established as outgoing or incoming peers; 10-70 rounds in which a held PING is answered with a PONG carrying that voter's current opinion among three candidate addresses (fewer liars than the minimum vote a third address), voters change opinion, time passes (up to a whole vote duration); the local record is read after every PONG: a change to an address must be backed, at that moment, by at least the minimum number of unexpired latest votes of eligible (outgoing) peers and every rival must stay below round(0.7 x that count); seq increases, the record verifies, one SocketUpdated event per change; non-trivial = at least one eligible vote was cast; distinct = distinct event-log hash; every SocketUpdated event must announce an address the record now advertises and every change must be announced in the same step; PINGs to voters sometimes time out (the voter is marked disconnected; its earlier unexpired vote stands, a PONG of its counts again only after one has been processed); the application sometimes overrides the advertised socket by hand",
+    rule: "one run = a real service in IPv4 mode with enr_peer_update_min 2..6, vote_duration 8/30/120 s, ping interval 1 s, 2-12 voters established as outgoing or incoming peers; 10-70 rounds in which a held PING is answered with a PONG carrying that voter's current opinion among three candidate addresses (fewer liars than the minimum vote a third address), voters change opinion, time passes (up to a whole vote duration); the local record is read after every PONG: a change to an address must be backed, at that moment, by at least the minimum number of unexpired latest votes of eligible (outgoing) peers and every rival must stay below round(0.7 x that count); seq increases, the record verifies, one SocketUpdated event per change; non-trivial = at least one eligible vote was cast; distinct = distinct event-log hash; every SocketUpdated event must announce an address the record now advertises and every change must be announced in the same step; PINGs to voters sometimes time out (the voter is marked disconnected; its earlier unexpired vote stands, a PONG of its counts again only after one has been processed); the application sometimes overrides the advertised socket by hand; dual-stack runs (a third) enable the connectivity check in half of the runs: when it revokes an elected socket of one family the tally of the other family must stand, which the margin clause checks there with bounds (the winner's certain plus possible votes against a rival's certain votes); voters publish new records now and then (their PONGs announce the higher sequence number, the node asks for the record) and answer such record requests with a NODES response, which is no vote and leaves the expiry of earlier votes alone",
     components_real: REAL_SERVICE,
     components_stub: STUB_SERVICE,
     enumerated: None,
-    assumptions: &["IPv4 mode, where only connected outgoing table peers are eligible voters; all PINGs are eventually answered so voters stay connected", "one run in four enables the NAT check (auto_nat_listen_duration), whose removal of the address is not a PONG-caused change and is only checked for seq/signature"],
+    assumptions: &["single-stack runs: only connected outgoing table peers are eligible voters (a voter whose PING timed out is disconnected until one of its PONGs has been processed); dual-stack runs: PONGs of other peers count while votes of that family are missing, so the tally is known within bounds (certain votes = connected outgoing peers, possible votes = everybody else) and the margin clause is checked with those bounds (100 ms slack on expiry)", "the connectivity check (auto_nat_listen_duration 20 s; a quarter of the single-stack and half of the dual-stack runs) removes an elected socket nobody connects to: that removal is not a PONG-caused change (checked for seq/signature only), and since votes of the revoked family are not counted for hours afterwards the reference stops following that family for the rest of the run"],
 };
 
 pub static C20: CheckSpec = CheckSpec {
@@ -284,7 +284,7 @@ pub static C20: CheckSpec = CheckSpec {
     runs_thorough: 2_000_000,
     cap_quick_s: 75,
     cap_thorough_s: 1200,
-    rule: "one run = 1-150 TALKREQs from 5 peers delivered to a real service; the application (harness) takes the TalkRequest objects from the event stream and, in tape order, responds, drops or holds them; stream modes: drained, never drained (fills up), receiver dropped; in one run of three the service is shut down at a chosen point and the (scripted) handler goes away with it, after which held requests are responded to or dropped; while running every TALKREQ must get exactly one TALKRESP with its id to its address carrying the application's payload or an empty one; after shutdown respond() must return an error and nothing may panic; every run is non-trivial; distinct = distinct event-log hash; the application may sit on requests for 50 ms .. 10 min before answering or dropping them; Scenario 'full-stack' (W-F, see C09): the applications of complete nodes answer or drop every TalkRequest event at once; per (node, requester, request id) the TALKRESP packets on the wire (decrypted with the key log) never outnumber the events, carry a payload the application produced, and equal the events in number at the end unless the node restarted or a handler dropped a response for lack of a session; the application's payload may be explicitly empty; the application sometimes panics while it holds a request (the request object is dropped by the unwinding); payload size classes: empty, small, around the largest that fits a datagram (1100..1300 bytes), 5000 bytes",
+    rule: "one run = 1-150 TALKREQs from 5 peers delivered to a real service; the application (harness) takes the TalkRequest objects from the event stream and, in tape order, responds, drops or holds them; stream modes: drained, never drained (fills up), receiver dropped; in one run of three the service is shut down at a chosen point and the (scripted) handler goes away with it, after which held requests are responded to or dropped; while running every TALKREQ must get exactly one TALKRESP with its id to its address carrying the application's payload or an empty one; after shutdown respond() must return an error and nothing may panic; every run is non-trivial; distinct = distinct event-log hash; the application may sit on requests for 50 ms .. 10 min before answering or dropping them; Scenario 'full-stack' (W-F, see C09): the applications of complete nodes answer or drop every TalkRequest event at once; per (node, requester, request id) the TALKRESP packets on the wire (decrypted with the key log) never outnumber the events, carry a payload the application produced, and equal the events in number at the end unless the node restarted or a handler dropped a response for lack of a session; the application's payload may be explicitly empty; the application sometimes panics while it holds a request (the request object is dropped by the unwinding); payload size classes: empty, small, around the largest that fits a datagram (1100..1300 bytes), 5000 bytes; the five requesters are unknown to the node, known through a session (dual-stack runs: with an IPv6 endpoint in the record as well) or known from a table entry whose record advertises another port or address than the one they send from: the response belongs to the source address of the request in every case; a quarter of the runs listen dual-stack; the requester of a held request is sometimes banned (node id or IP) before the application responds or drops: the request is still owed exactly one response",
     components_real: REAL_SERVICE,
     components_stub: STUB_SERVICE,
     enumerated: None,
@@ -299,7 +299,7 @@ pub static C13: CheckSpec = CheckSpec {
     runs_thorough: 2_000_000,
     cap_quick_s: 75,
     cap_thorough_s: 1200,
-    rule: "same world and fault profiles as C04 (packet filter on in half of the handlers) plus malicious peers (second WHOAREYOU, forged WHOAREYOU, random packets from unknown parties whose challenge is never answered); the shared exemption map is compared with the harness's ledger after every handler output (upper bound) and must be empty at quiescence; non-trivial = at least one fault fired; distinct = distinct event-log hash; banned-peer-bypass: victim with the packet filter on, the peer's IP banned: the victim's own requests to it must be answered (exemption) and the peer's unsolicited requests must leave no trace; Scenario 'full-stack': 2-5 complete honest Discv5 nodes (API, service, handler, tables) on the virtual network with drop/duplicate/delay/bit-flip/late-replay/partition/restart faults and API calls (find_node incl. targets adjacent to a peer's id, send_ping, talk_req, find_node_designated_peer); all exemption maps must be empty once every API call returned; lower bound: the exemptions for an address are at least the requests to it that were transmitted (request-transmission log) and have no outcome yet; challenges are tracked per (address, claimed node id); banned-peer-bypass: while the victim waits for the banned peer's answer another endpoint on the same IP (other port) sends an unsolicited packet, which must leave no trace",
+    rule: "same world and fault profiles as C04 (packet filter on in half of the handlers) plus malicious peers (second WHOAREYOU, forged WHOAREYOU, random packets from unknown parties whose challenge is never answered); the shared exemption map is compared with the harness's ledger after every handler output (upper bound) and must be empty at quiescence; non-trivial = at least one fault fired; distinct = distinct event-log hash; banned-peer-bypass: victim with the packet filter on, the peer's IP banned: the victim's own requests to it must be answered (exemption) and the peer's unsolicited requests must leave no trace; Scenario 'full-stack': 2-5 complete honest Discv5 nodes (API, service, handler, tables) on the virtual network with drop/duplicate/delay/bit-flip/late-replay/partition/restart faults and API calls (find_node incl. targets adjacent to a peer's id, send_ping, talk_req, find_node_designated_peer); all exemption maps must be empty once every API call returned; lower bound: the exemptions for an address are at least the requests to it that were transmitted (request-transmission log) and have no outcome yet; challenges are tracked per (address, claimed node id); banned-peer-bypass: while the victim waits for the banned peer's answer another endpoint on the same IP (other port) sends an unsolicited packet, which must leave no trace; malicious peers also send a WHOAREYOU that echoes the nonce of a request in flight from another endpoint than the dialled one (the peer's IP on another port, a third party)",
     components_real: REAL_HANDLER,
     components_stub: STUB_HANDLER,
     enumerated: None,
@@ -314,7 +314,7 @@ pub static C01: CheckSpec = CheckSpec {
     runs_thorough: 600_000,
     cap_quick_s: 75,
     cap_thorough_s: 1200,
-    rule: "one run = a victim handler, 1-2 genuine peers (one possibly not running) and an adversary without any honest secret key; the victim's application knows the genuine record, nothing, or a stale record; 1-3 attacks = random packet claiming a genuine id from the attacker's or the genuine (spoofed) address, then a handshake answering the victim's WHOAREYOU with record in {own (seq below/equal/above), genuine (replayed), none, own with the genuine address}, signer in {attacker key, garbage, replayed genuine signature}, valid or invalid ephemeral key; interleaved with genuine requests in both directions; every identity effect (Established, Request, Response, UnverifiableEnr, recipient-side session keys) must be justified by a delivered handshake whose id-signature verifies under the claimed id's public key over one of the node's own WHOAREYOUs to that address, or by the node's own dial; non-trivial = an attack datagram was injected; distinct = distinct event-log hash; in a third of the runs one genuine peer lies about who it is after an honest handshake: asked for its record (the FINDNODE [0] a handler sends by itself to a contact dialled without a record) it presents a validly signed record of another identity (another node's genuine record, one without address, a second identity at its own address); each challenge justifies one session only (a session derived again from an already answered challenge is a replay); genuine handshakes are sometimes damaged in their message part and re-presented repeatedly; a fifth of the identity-adversary runs use an IPv6-only network; Scenario 'table-policy' (the C12 service world): undecryptable packets claiming a table node from its own or another address make the handler raise a who-are-you query: the claimed node's table entry (record, connection state) must not change; table-policy scenario: after such a query the service must not send a request to the claimed node at a socket that only the unauthenticated packet named",
+    rule: "one run = a victim handler, 1-2 genuine peers (one possibly not running) and an adversary without any honest secret key; the victim's application knows the genuine record, nothing, or a stale record; 1-3 attacks = random packet claiming a genuine id from the attacker's or the genuine (spoofed) address, then a handshake answering the victim's WHOAREYOU with record in {own (seq below/equal/above), genuine (replayed), none, own with the genuine address}, signer in {attacker key, garbage, replayed genuine signature}, valid or invalid ephemeral key; interleaved with genuine requests in both directions; every identity effect (Established, Request, Response, UnverifiableEnr, recipient-side session keys) must be justified by a delivered handshake whose id-signature verifies under the claimed id's public key over one of the node's own WHOAREYOUs to that address, or by the node's own dial; non-trivial = an attack datagram was injected; distinct = distinct event-log hash; in a third of the runs one genuine peer lies about who it is after an honest handshake: asked for its record (the FINDNODE [0] a handler sends by itself to a contact dialled without a record) it presents a validly signed record of another identity (another node's genuine record, one without address, a second identity at its own address); each challenge justifies one session only (a session derived again from an already answered challenge is a replay); genuine handshakes are sometimes damaged in their message part and re-presented repeatedly; a fifth of the identity-adversary runs use an IPv6-only network; Scenario 'table-policy' (the C12 service world): undecryptable packets claiming a table node from its own or another address make the handler raise a who-are-you query: the claimed node's table entry (record, connection state) must not change; table-policy scenario: after such a query the service must not send a request to the claimed node at a socket that only the unauthenticated packet named; half of the forged handshakes are followed by a second, differently made one against the same WHOAREYOU (record, signer and sequence relation drawn again); in IPv6 runs the adversary's packets come from an IPv4-mapped source a third of the time; up to two recorded genuine message datagrams of an honest peer are presented to the victim from another socket (the peer's IP on another port, the adversary's address) by a party holding no key",
     components_real: REAL_HANDLER_AND_SERVICE,
     components_stub: STUB_HANDLER_AND_SERVICE,
     enumerated: None,
@@ -332,7 +332,7 @@ pub static C02: CheckSpec = CheckSpec {
     runs_thorough: 2 * worlds::h_tamper::ENUM_SPACE + 200_000,
     cap_quick_s: 75,
     cap_thorough_s: 1500,
-    rule: "enumerated half: 6 base exchanges (fresh recipient session, initiator with multi-packet NODES, record-less contact awaiting the record, re-key after session loss, simultaneous dial with a third node, NODES in 2 packets then reverse PING) x datagram index 0..9 x mutation index j (every single-bit flip, every truncation length, a 1-byte insertion at every offset, 1..8 junk bytes appended to the auth-data with the masked size field patched to cover them, presentation from the sender's IP on another UDP port; j beyond that is an empty case that ends at once): 198540 cases, all executed by the thorough tier, a fixed-stride sample by the quick tier; exactly one genuine datagram is replaced by its mutation per run. explored half: tape-chosen base plus extra requests, 5-40 % of the datagrams mutated by bit flip / truncation / insertion / auth-data growth with patched size field / header-body splice with an earlier datagram / misdelivery / re-masking for another node / spoofed source, with jitter and duplicates, sometimes delivering the genuine datagram as well; non-trivial = at least one mutated datagram was delivered; distinct = distinct event-log hash; exploration also lets a party with keys of its own answer a node's WHOAREYOU in the challenged peer's name from the peer's address (own/peer's/no record, lower/equal/higher seq): nothing it sends may be delivered as the peer's; explored runs: a fifth on an IPv6-only network, peers whose record advertises another port than they send from, and datagrams presented from that advertised socket; a delivery is justified if any datagram that carried the message from the attributed address belongs to a session established with that address; exploration injects messages in a peer's name from its address sealed with trivial keys (all-zero, all-ones)",
+    rule: "enumerated half: 6 base exchanges (fresh recipient session, initiator with multi-packet NODES, record-less contact awaiting the record, re-key after session loss, simultaneous dial with a third node, NODES in 2 packets then reverse PING) x datagram index 0..9 x mutation index j (every single-bit flip, every truncation length, a 1-byte insertion at every offset, 1..8 junk bytes appended to the auth-data with the masked size field patched to cover them, presentation from the sender's IP on another UDP port; j beyond that is an empty case that ends at once): 198540 cases, all executed by the thorough tier, a fixed-stride sample by the quick tier; exactly one genuine datagram is replaced by its mutation per run. explored half: tape-chosen base plus extra requests, 5-40 % of the datagrams mutated by bit flip / truncation / insertion / auth-data growth with patched size field / header-body splice with an earlier datagram / misdelivery / re-masking for another node / spoofed source, with jitter and duplicates, sometimes delivering the genuine datagram as well; non-trivial = at least one mutated datagram was delivered; distinct = distinct event-log hash; exploration also lets a party with keys of its own answer a node's WHOAREYOU in the challenged peer's name from the peer's address (own/peer's/no record, lower/equal/higher seq): nothing it sends may be delivered as the peer's; explored runs: a fifth on an IPv6-only network, peers whose record advertises another port than they send from, and datagrams presented from that advertised socket; a delivery is justified if any datagram that carried the message from the attributed address belongs to a session established with that address; exploration injects messages in a peer's name from its address sealed with trivial keys (all-zero, all-ones); explored runs: responders sometimes announce a NODES total that is not the number of packets they send (3, 16, 40, 2^64-1); explored responders sometimes seal, under their genuine session keys, a hand-made NODES plaintext in which one of three records has a damaged signature (a peer need not use this crate's encoder): nothing that differs from what the peer encrypted may be delivered",
     components_real: REAL_HANDLER,
     components_stub: STUB_HANDLER,
     enumerated: Some(("tamper-enumerated", worlds::h_tamper::ENUM_SPACE)),
@@ -350,7 +350,7 @@ pub static C03: CheckSpec = CheckSpec {
     runs_thorough: 2 * worlds::h_replay::ENUM_SPACE + 600_000,
     cap_quick_s: 75,
     cap_thorough_s: 1200,
-    rule: "enumerated half: for each of 8 base exchanges (X dials V with/without V knowing X's record, V dials X with/without record, re-key after session loss, simultaneous dial plus a third node, X dials V with a record that advertises another address than it sends from, V re-keys as initiator after X restarted) every recorded handshake/WHOAREYOU datagram (index 0..7) x every later point (after the 1st..12th emitted datagram, after all challenges expired, while a later exchange runs) x {original source, other address, towards another node} is re-injected, one per run: 2688 cases, all executed in both tiers (runs whose datagram index does not exist inject nothing and are trivial); explored half: tape-chosen base, 1-4 replays, jitter and duplicates, extra requests; non-trivial = a replay was injected; distinct = distinct event-log hash; exploration also holds genuine handshakes back until around or past the expiry of the challenge they answer (timeout-300 .. timeout+1200 ms) while further undecryptable packets in the sender's name reach the challenger; exploration also presents WHOAREYOU and handshake datagrams from the sender's IP on another UDP port (instead of, or before, the genuine copy) and delivers genuine handshakes damaged in their message part repeatedly; explored runs: a fifth on an IPv6-only network; (c) the key a node encrypts messages with moves back to that of an earlier handshake only if a message under those keys reached it since it re-keyed; 8th base: the victim re-keys as initiator after its peer restarted",
+    rule: "enumerated half: for each of 9 base exchanges (X dials V with/without V knowing X's record, V dials X with/without record, re-key after session loss, simultaneous dial plus a third node, X dials V with a record that advertises another address than it sends from, V re-keys as initiator after X restarted) every recorded handshake/WHOAREYOU datagram (index 0..7) x every later point (after the 1st..12th emitted datagram, after all challenges expired, while a later exchange runs) x {original source, other address, towards another node, forgery made from it, from the socket the handshake's own record advertises} is re-injected, one per run: 5040 cases, all executed in both tiers (runs whose datagram index does not exist inject nothing and are trivial); explored half: tape-chosen base, 1-4 replays, jitter and duplicates, extra requests; non-trivial = a replay was injected; distinct = distinct event-log hash; exploration also holds genuine handshakes back until around or past the expiry of the challenge they answer (timeout-300 .. timeout+1200 ms) while further undecryptable packets in the sender's name reach the challenger; exploration also presents WHOAREYOU and handshake datagrams from the sender's IP on another UDP port (instead of, or before, the genuine copy) and delivers genuine handshakes damaged in their message part repeatedly; explored runs: a fifth on an IPv6-only network; (c) the key a node encrypts messages with moves back to that of an earlier handshake only if a message under those keys reached it since it re-keyed; 8th base: the victim re-keys as initiator after its peer restarted; a ninth base exchange has V's FINDNODE answered with three NODES packets spread over 400 ms, and a fourth injection variant forges (rather than replays) a WHOAREYOU from a recorded datagram: one echoing the nonce of a recorded handshake, sent to the handshake's sender, or a second WHOAREYOU with another id-nonce for the nonce a recorded WHOAREYOU echoed",
     components_real: REAL_HANDLER,
     components_stub: STUB_HANDLER,
     enumerated: Some(("replay-enumerated", worlds::h_replay::ENUM_SPACE)),
